@@ -76,8 +76,11 @@ def refactoring_variants():
         extra = os.path.join(rd, rid, 'props.txt')
         if os.path.exists(extra):
             props += open(extra).read().split()
-        for p in sorted(set(props)):
-            out.append(dict(id=f'ref-{rid}-{p}', prop=p, kind='silent', patch=pp))
+        gap_f = os.path.join(rd, rid, 'undecided.txt')
+        gaps = set(open(gap_f).read().split()) if os.path.exists(gap_f) else set()
+        for p in sorted(set(props) | gaps):
+            # a recorded robustness gap: the check may answer "undecided" (exit 2) on this shape, never "violation"
+            out.append(dict(id=f'ref-{rid}-{p}', prop=p, kind='silent', patch=pp, gap=p in gaps))
     return out
 
 
@@ -107,6 +110,12 @@ def run_variant(v):
                 return (v['id'], 'SKIPPED', 'seed patch no longer applies: ' + r.stdout.strip()[:120])
             edits = []
         else:
+            if v.get('base'):
+                # a mutant of a refactored shape: the behaviour-preserving refactoring first, the edit on top of it
+                import subprocess
+                r = subprocess.run(['git', 'apply', os.path.join('/verif/selftest/refactorings', v['base'], 'patch.diff')], cwd=tmp, stdout=subprocess.PIPE, stderr=subprocess.STDOUT, text=True)
+                if r.returncode != 0:
+                    return (v['id'], 'SKIPPED', 'base refactoring no longer applies: ' + r.stdout.strip()[:120])
             edits = v.get('edits') or [(v['file'], v['old'], v['new'])]
             err = apply_edits(tmp, edits)
             if err:
@@ -135,6 +144,8 @@ def run_variant(v):
                 return (v['id'], 'ok', 'undecided (exit 2) as allowed')
             return (v['id'], 'FAIL', f'expected {want}, got violations={rules} undecided={[o.rule for o in und][:3]} floors={floor_fail}')
         else:
+            if v.get('gap') and not viol:
+                return (v['id'], 'ok', 'no violation (undecided: recorded robustness gap)' if (und or floor_fail) else 'silent (the recorded gap is closed)')
             if viol or und or floor_fail:
                 o = (viol + und)[0] if (viol + und) else None
                 return (v['id'], 'FAIL', f'silent variant reported: {o.rule + " " + o.construct + ": " + o.detail if o else floor_fail}')
